@@ -9,7 +9,6 @@
    binary64 bit pattern (N < 2^64), list and tuple are both Arr, a dict is the list of its items in
    insertion order.  compatibility = False, _float_size = 64 (CPython on IEEE hardware). *)
 From Coq Require Import List Bool Arith NArith ZArith.
-From Coq Require String Ascii.
 Import ListNotations.
 Local Open Scope N_scope.
 
@@ -623,20 +622,20 @@ Fixpoint wf (v : value) : bool :=
   end.
 
 (* ------------------------------------------------------------------------------------------ *)
-(* Helpers for case files (run-length and hexadecimal byte strings)                            *)
+(* Helpers for case files (run-length and arithmetic-progression byte strings)                  *)
 (* ------------------------------------------------------------------------------------------ *)
 
 Definition rp (b : N) (n : N) : bytes := repeat b (N.to_nat n).
 Definition rpv (v : value) (n : N) : list value := repeat v (N.to_nat n).
 
-(* "0aff" -> [10; 255] (lower-case hexadecimal) *)
-Definition hexval (a : Ascii.ascii) : N :=
-  let n := Ascii.N_of_ascii a in if n <? 58 then n - 48 else n - 87.
-Fixpoint hx (s : String.string) : bytes :=
-  match s with
-  | String.String a (String.String b r) => (hexval a * 16 + hexval b) :: hx r
-  | _ => []
+(* for i = start .. start+count-1 : pre ++ (k-byte big-endian i) ++ suf *)
+Fixpoint seg_from (c : nat) (i : N) (pre : bytes) (k : nat) (suf : bytes) : bytes :=
+  match c with
+  | O => []
+  | S c' => pre ++ be k i ++ suf ++ seg_from c' (i + 1) pre k suf
   end.
+Definition seg (start count : N) (pre : bytes) (k : nat) (suf : bytes) : bytes :=
+  seg_from (N.to_nat count) start pre k suf.
 
 Fixpoint value_eqb (a b : value) : bool :=
   match a, b with
